@@ -97,4 +97,39 @@ theorem sk_freeQuery (s : St) (k : Nat) : (s.freeQuery k).sk = s.sk.freeQuery k 
   simp only [Sk.mk.injEq, true_and, and_true, List.filter_map]
   rfl
 
+/-! ### projections of the generic updates -/
+
+theorem proj_modQ {β} (a : Sk) (k : Nat) (g : QSk → QSk) (π : QSk → β) (h : ∀ e, π (g e) = π e) :
+    (a.modQ k g).qs.map π = a.qs.map π := by
+  unfold Sk.modQ; simp only [List.map_map]; apply List.map_congr_left; intro x _
+  simp only [Function.comp]; split <;> simp [h]
+theorem proj_modC {β} (a : Sk) (fd : Nat) (g : CSk → CSk) (π : CSk → β) (h : ∀ e, π (g e) = π e) :
+    (a.modC fd g).conns.map π = a.conns.map π := by
+  unfold Sk.modC; simp only [List.map_map]; apply List.map_congr_left; intro x _
+  simp only [Function.comp]; split <;> simp [h]
+
+theorem qKC_modQ_conn (a : Sk) (k : Nat) (v : Option Nat) :
+    (a.modQ k fun e => { e with conn := v }).qKC = a.qKC.map fun p => if p.1 == k then (p.1, v) else p := by
+  unfold Sk.modQ Sk.qKC; simp only [List.map_map]; apply List.map_congr_left; intro x _
+  simp only [Function.comp]; split <;> rfl
+theorem cFQ_modC_queries (a : Sk) (fd : Nat) (h : List Nat → List Nat) :
+    (a.modC fd fun c => { c with queries := h c.queries }).cFQ =
+      a.cFQ.map fun c => if c.1 == fd then (c.1, h c.2) else c := by
+  unfold Sk.modC Sk.cFQ; simp only [List.map_map]; apply List.map_congr_left; intro x _
+  simp only [Function.comp]; split <;> rfl
+theorem cFUQ_modC_queries (a : Sk) (fd : Nat) (h : List Nat → List Nat) :
+    (a.modC fd fun c => { c with queries := h c.queries }).cFUQ =
+      a.cFUQ.map fun c => if c.1 == fd then (c.1, c.2.1, h c.2.2) else c := by
+  unfold Sk.modC Sk.cFUQ; simp only [List.map_map]; apply List.map_congr_left; intro x _
+  simp only [Function.comp]; split <;> rfl
+
+/-- description of `removeFromConn` when the query is live -/
+theorem Sk.removeFromConn_eq (a : Sk) (k : Nat) (e : QSk) (h : a.q? k = some e) :
+    a.removeFromConn k =
+      { ((match e.conn with
+         | some fd => a.modC fd fun c => { c with queries := c.queries.erase k }
+         | none => a).modQ k fun e => { e with conn := none }) with
+        byTimeout := a.byTimeout.erase k, pendingOrder := a.pendingOrder.erase k } := by
+  unfold Sk.removeFromConn; rw [h]; simp only [Sk.modQ, Sk.modC]; cases e.conn <;> rfl
+
 end Cares.Chan
